@@ -817,6 +817,13 @@ class AlgDomain(EventsMixin, Domain):
           return Vec(SExpr(inv.coeff * na, inv.factors), b.orient)
     return UNKNOWN
 
+  def x_numpy_reciprocal(self, args, kwargs, node, st):
+    if args and isinstance(args[0].d, Vec):
+      inv = args[0].d.sx.pow(-1)
+      if inv is not None:
+        return Vec(inv, args[0].d.orient)
+    return UNKNOWN
+
   def _inv(self, args, kwargs, node, st):
     a = args[0].d if args else UNKNOWN
     if isinstance(a, Poly) and a.kind == 'mat':
